@@ -15,6 +15,7 @@ import GeoProofs.Lemmas.C10Earcut
 import GeoProofs.Lemmas.C10Stitch
 import GeoProofs.Lemmas.C10Mono
 import GeoProofs.Lemmas.MONOInit
+import GeoProofs.Lemmas.MONOSweepC
 import GeoProofs.Props.C19
 import Mathlib.Tactic.NormNum
 
@@ -375,5 +376,42 @@ def lShape : Poly := ⟨[⟨0,2⟩,⟨0,4⟩,⟨3,4⟩,⟨3,0⟩,⟨1,0⟩,⟨1,
 example : MonoBuild.monotoneSubdivision [lShape] =
     some [⟨[⟨1,0⟩,⟨1,2⟩,⟨3,0⟩], [⟨1,0⟩,⟨3,0⟩]⟩,
           ⟨[⟨0,2⟩,⟨0,4⟩,⟨3,4⟩], [⟨0,2⟩,⟨1,2⟩,⟨3,0⟩,⟨3,4⟩]⟩] := by decide +kernel
+
+open Geo.MonoBuild Geo.Proofs.MONO in
+/-- [T] the sweep visits its event points in strictly increasing lexicographic order, each point once — for all
+inputs. `sweepPoints ps` is the sequence of points handled by the successive calls of `process_next_pt`
+(`MONOSweepC.sweepTrace`); the invariant `SInv` behind it: the event queue is a heap in the sweep order
+(`Event::cmp` reversed), every segment is a proper line, a `LineLeft` event sits at its segment's left end, and
+`handle_event` only ever queues events at or after the point being handled (split points are end points of the
+segment being inserted or lie strictly to its right). -/
+theorem monotone_sweep_points_increasing (ps : List Poly) : lexSorted (sweepPoints ps) = true :=
+  (sweepTrace_sorted _ _ _ (initState_sinv ps)).1
+
+example : Geo.Proofs.MONO.sweepPoints [lShape] = [⟨0,2⟩, ⟨0,4⟩, ⟨1,0⟩, ⟨1,2⟩, ⟨3,0⟩, ⟨3,4⟩] := by decide +kernel
+
+/-- the pieces of the model as closed rings (`MonoPoly::into_polygon`) -/
+def monoRings (ps : List Poly) : List (List Pt) :=
+  ((MonoBuild.monotoneSubdivision ps).getD []).map (fun m => (intoPolygon m).ext)
+
+/-- the first witness of the former finding C10-K2: a vertex of the second member in the interior of an edge of the
+first one -/
+def k2Witness1 : List Poly :=
+  [⟨[⟨0,3⟩,⟨1,2⟩,⟨1,1⟩,⟨3,1⟩,⟨3,2⟩,⟨2,2⟩,⟨2,3⟩,⟨0,3⟩], []⟩, ⟨[⟨2,0⟩,⟨3,0⟩,⟨2,1⟩,⟨2,0⟩], []⟩]
+
+/-- the second witness: a hole touching the shell at a hole vertex inside a shell edge, a second hole further left -/
+def k2Witness2 : List Poly :=
+  [⟨[⟨-22,25⟩,⟨-30,0⟩,⟨0,0⟩,⟨0,30⟩,⟨-22,25⟩],
+    [[⟨-4,7⟩,⟨-11,0⟩,⟨-1,2⟩,⟨-4,7⟩], [⟨-20,15⟩,⟨-22,14⟩,⟨-22,15⟩,⟨-20,15⟩]]⟩]
+
+/-- [T] (witness lemma for the repaired finding C10-K2) on both witnesses the builder, as fixed by geo d3134ab7
+(helper cells cleared at a segment's `LineLeft` event) and mirrored by the model, does not panic, and its pieces pass
+the exact tiling checker against the input. Before the fix the code panicked on both (a pending `help` copied by
+`split_at` was served twice) and so did the model. -/
+theorem monotone_k2_witnesses_tile :
+    (MonoBuild.monotoneSubdivision k2Witness1).isSome = true ∧
+    tiles .notOutside (monoRings k2Witness1) (.multiPolygon k2Witness1) = true ∧
+    (MonoBuild.monotoneSubdivision k2Witness2).isSome = true ∧
+    tiles .notOutside (monoRings k2Witness2) (.multiPolygon k2Witness2) = true := by
+  decide +kernel
 
 end Geo.Proofs.C10
